@@ -88,7 +88,10 @@ def command_text(snap, t):
                 L.append("mkdir -p %s" % q(path))
                 L.append("gen %s > %s" % (q("dir::" + path), q(path + "/data")))
     if t.get("check"):
-        L.append('mkdir -p "$GROG_WORKSPACE_ROOT/ext"; touch "$GROG_WORKSPACE_ROOT/ext"/%s' % q(ext_name(t)))
+        if t["beh"] == "x":   # destroys the condition its own output check inspects (post-execution check fails)
+            L.append('rm -f "$GROG_WORKSPACE_ROOT/ext"/%s' % q(ext_name(t)))
+        else:
+            L.append('mkdir -p "$GROG_WORKSPACE_ROOT/ext"; touch "$GROG_WORKSPACE_ROOT/ext"/%s' % q(ext_name(t)))
     if t["beh"] == "a":
         L.append("exit 3")
     L.append('echo %s >> "$VTRACE"' % q("E " + lab))
@@ -323,6 +326,10 @@ def enc_history(ops):
             t += ["P", hx(o[1])] + list(o[2])
         elif o[0] == "X":
             t += ["X"] + enc_label(o[1])
+        elif o[0] == "D":
+            t += ["D", hx(o[1])]
+        elif o[0] == "R":
+            t += ["R"]
         elif o[0] == "B":
             t += ["B"] + enc_cfg(o[1]) + [str(len(o[2]))] + [str(r) for r in o[2]]
     return " ".join(t)
@@ -552,6 +559,47 @@ class History:
         self.ops.append(("X", n))
         self.desc.append("destroy external condition of " + label(n))
 
+    def cache_dirs(self, sec):
+        res = []
+        for dp, dn, fn in os.walk(self.root):
+            if os.path.basename(dp) == sec:
+                res.append(dp)
+        return res
+
+    def drop_blob(self, node_idx, out_idx):
+        """cache fault: the CAS blob holding the bytes of a FILE output as they sit in the workspace now is lost"""
+        n = self.snap["nodes"][node_idx]
+        kind, path = n["outs"][out_idx]
+        if kind != "file":
+            return False
+        fp = full(n["pkg"], path)
+        try:
+            data = open(os.path.join(self.ws, fp), "rb").read()
+        except OSError:
+            return False
+        for d in self.cache_dirs("cas"):
+            for f in os.listdir(d):
+                q = os.path.join(d, f)
+                try:
+                    if os.path.isfile(q) and os.path.getsize(q) == len(data) and open(q, "rb").read() == data:
+                        os.unlink(q)
+                except OSError:
+                    pass
+        self.ops.append(("D", fp))
+        self.desc.append("cache fault: blob of %s (output of %s) lost" % (fp, label(n)))
+        return True
+
+    def drop_results(self):
+        """cache fault: every stored target result is lost (the CAS stays)"""
+        for d in self.cache_dirs("target"):
+            for f in os.listdir(d):
+                try:
+                    os.unlink(os.path.join(d, f))
+                except OSError:
+                    pass
+        self.ops.append(("R",))
+        self.desc.append("cache fault: all target results lost")
+
     def build(self, cfg, roots=None, timeout=120):
         nodes = self.snap["nodes"]
         if roots is None:
@@ -565,6 +613,8 @@ class History:
         for pkg, kind, path in outputs_of(self.snap):
             obs[full(pkg, path)] = observe_output(self.ws, pkg, kind, path)
         res["ws"] = obs
+        extd = os.path.join(self.ws, "ext")
+        res["ext"] = sorted(os.listdir(extd)) if os.path.isdir(extd) else []
         res["cfg"] = cfg
         res["roots"] = roots
         self.builds.append(res)
